@@ -43,7 +43,7 @@ Definition explore (fuel : nat) (P : prog) : option result :=
 (** * Entry point for the extracted driver
     input  = fuel :: program            (see McRef.decode_prog)
     output = [0]                                                  when the fuel ran out
-           | 1 :: deadlock :: failure :: invalid :: nstates :: nout :: outcome_1 (8 values) ... outcome_nout *)
+           | 1 :: deadlock :: failure :: invalid :: nstates :: nout :: outcome_1 (8 values) ... outcome_nout ++ [ntransitions] *)
 Definition b2z (b : bool) : Z := if b then 1 else 0.
 
 Definition run_c38 (l : list Z) : list Z :=
@@ -55,5 +55,6 @@ Definition run_c38 (l : list Z) : list Z :=
       | Some R =>
           1 :: b2z (r_deadlock R) :: b2z (r_failure R) :: b2z (r_invalid R) :: Z.of_nat (length (r_states R))
             :: Z.of_nat (length (r_outcomes R)) :: concat (r_outcomes R)
+            ++ [Z.of_nat (length (flat_map (succs (decode_prog r)) (r_states R)))]
       end
   end.
